@@ -77,6 +77,16 @@ func newE2(t *rapid.T, root, tag string, prog *mrogen.Program, prop string, maxJ
 			os.RemoveAll(dir)
 		}
 	}
+	// some stages are python modules run through the shipped python adapter
+	// (adapters/python/martian_shell.py): real Python writes their outputs
+	if pyOdds := rapid.SampledFrom([]int{0, 2, 4}).Draw(t, "pyStageOdds"); pyOdds > 0 {
+		for _, st := range prog.Stages {
+			if rapid.IntRange(0, pyOdds-1).Draw(t, "pyStage") == 0 {
+				st.SrcLang = "py"
+				st.SrcPath = "stages/" + strings.ToLower(st.Name)
+			}
+		}
+	}
 	src := prog.Source(nil)
 	opts := stagefn.Opts{NullPct: rapid.SampledFrom([]int{0, 0, 5}).Draw(t, "outNullPct"), ChunkChoices: []int{0, 1, 2, 3}}
 	model := refsem.Eval(prog, &opts)
@@ -513,6 +523,9 @@ func TestE2Faults(t *testing.T) {
 		kinds := []string{"exit", "signal", "errpipe", "assert"}
 		st := prog.Stage(site.Stage)
 		switch {
+		case st.SrcLang == "py":
+			// (what a python module returns is written by the adapter:
+			// no half-written files; an exception instead of the error pipe)
 		case site.Phase == "split":
 			kinds = append(kinds, "bad-stage-defs")
 		case site.Phase == "join" || (site.Phase == "main" && !st.Split):
